@@ -443,6 +443,31 @@ def r02c(ctx):
                 R = poly(T, npar)
                 padd(R, poly(T, off), -1)
                 how = 'identity rotated left by n - x'
+    if R is None:
+        # two ascending runs: std::iota(begin, begin + RUN, r); std::iota(begin + RUN, end, 0) with RUN = n - r
+        io = [ev for nid, ev in calls if ev[1].split('::')[-1] == 'iota' and len(ev[2]) == 3]
+        if len(io) == 2:
+            def off_of(t, which):
+                tn = T.node(t)
+                if tn[0] == 'mc' and tn[1].split('::')[-1] == which:
+                    return T.int(0) if which == 'begin' else None
+                if tn[0] == 'opc' and tn[1] == '+' and len(tn) == 4 and T.node(tn[2])[0] == 'mc' and T.node(tn[2])[1].split('::')[-1] == 'begin':
+                    return tn[3]
+                return 'bad'
+            first = [ev for ev in io if off_of(ev[2][0], 'begin') is not None and off_of(ev[2][0], 'begin') != 'bad' and T.is_int(off_of(ev[2][0], 'begin'), 0)]
+            second = [ev for ev in io if ev not in first]
+            if len(first) == 1 and len(second) == 1:
+                run1 = off_of(first[0][2][1], 'begin')
+                run2 = off_of(second[0][2][0], 'begin')
+                end2 = T.node(second[0][2][1])
+                if run1 not in (None, 'bad') and run1 == run2 and end2[0] == 'mc' and end2[1].split('::')[-1] == 'end' and T.is_int(second[0][2][2], 0):
+                    r0 = first[0][2][2]
+                    d = poly(T, run1)
+                    padd(d, poly(T, r0), 1)
+                    padd(d, poly(T, npar), -1)
+                    if not {m: c for m, c in d.items() if c}:
+                        R = poly(T, r0)
+                        how = 'two ascending runs r..n-1 and 0..r-1 (std::iota twice, first run of length n - r)'
     okp = R is not None
     if okp:
         ctx.ok('R02c', 'R02c:random_rotation:fill', how, f)
@@ -455,13 +480,27 @@ def r02c(ctx):
     if R is not None:
         for nn, kind, val, st in a.exits():
             if kind == 'return' and val is not None:
+                def arm_ok(v, zero_shift=False):
+                    vn = T.node(v)
+                    inner = vn[2] if (vn[0] == 'op' and vn[1] == '%' and vn[3] == npar) else v
+                    # returned + R must be a multiple of n (with the shift known to be 0 on this arm: returned itself)
+                    d = poly(T, inner)
+                    if not zero_shift:
+                        padd(d, R, 1)
+                    rest = {m: c for m, c in d.items() if c}
+                    if zero_shift:
+                        return all(m == (npar,) for m in rest) and all(c == int(c) for c in rest.values())
+                    return all(m == (npar,) for m in rest) and all(c == int(c) for c in rest.values()) and bool(rest)
                 vn = T.node(val)
-                inner = vn[2] if (vn[0] == 'op' and vn[1] == '%' and vn[3] == npar) else val
-                # returned + R must be a multiple of n
-                d = poly(T, inner)
-                padd(d, R, 1)
-                rest = {m: c for m, c in d.items() if c}
-                if all(m == (npar,) for m in rest) and all(c == int(c) for c in rest.values()) and rest:
+                if vn[0] == 'ite' and len(vn) == 4 and T.op(vn[1]) == 'rel' and T.node(vn[1])[1] == '==':
+                    # (r == 0) ? 0 : n - r
+                    cn = T.node(vn[1])
+                    xs = [z for z in (cn[2], cn[3]) if not T.is_int(z)]
+                    zs = [z for z in (cn[2], cn[3]) if T.is_int(z, 0)]
+                    shift_is_zero = len(xs) == 1 and len(zs) == 1 and poly(T, xs[0]) == R
+                    if shift_is_zero and arm_ok(vn[2], zero_shift=True) and arm_ok(vn[3]):
+                        okr = True
+                elif arm_ok(val):
                     okr = True
     if R is None:
         ctx.note('R02c', 'R02c:random_rotation:offset', 'shift of the rotation not determined: offset not decided', f)
